@@ -11,4 +11,5 @@ let table : (string * (z list -> z list)) list = [
   ("source", run_source);
   ("framing", run_framing);
   ("times", run_times);
+  ("history", run_history);
 ]
